@@ -51,8 +51,42 @@ pub fn run(op: &str, a: &[&str]) -> Option<String> {
             let back = s.parse::<f64>().map(wr_f64).unwrap_or_else(|_| "unparsable".into());
             Some(format!("\"{}\" {}", s, back))
         }
-        _ => serde_ops(op, a),
+        _ => trait_ops(op, a).or_else(|| serde_ops(op, a)),
     }
+}
+
+/// num_traits entry points called through the trait whether or not the crate overrides the provided method
+/// (a deleted override silently falls back to num_traits' default body): `tr.<Trait>.<method> args`
+fn trait_ops(op: &str, a: &[&str]) -> Option<String> {
+    use num_traits::float::FloatCore;
+    use num_traits::Float;
+    let t1 = |i: usize| -> Option<TwoFloat> { if a.len() >= i + 2 { Some(rd_tf(a[i], a[i + 1])) } else { None } };
+    Some(match op {
+        "tr.FloatCore.min" => wr_tf(FloatCore::min(t1(0)?, t1(2)?)),
+        "tr.FloatCore.max" => wr_tf(FloatCore::max(t1(0)?, t1(2)?)),
+        "tr.FloatCore.recip" => wr_tf(FloatCore::recip(t1(0)?)),
+        "tr.FloatCore.powi" => wr_tf(FloatCore::powi(t1(0)?, a.get(2)?.parse::<i32>().ok()?)),
+        "tr.FloatCore.to_degrees" => wr_tf(FloatCore::to_degrees(t1(0)?)),
+        "tr.FloatCore.to_radians" => wr_tf(FloatCore::to_radians(t1(0)?)),
+        "tr.FloatCore.abs" => wr_tf(FloatCore::abs(t1(0)?)),
+        "tr.FloatCore.signum" => wr_tf(FloatCore::signum(t1(0)?)),
+        "tr.FloatCore.floor" => wr_tf(FloatCore::floor(t1(0)?)),
+        "tr.FloatCore.ceil" => wr_tf(FloatCore::ceil(t1(0)?)),
+        "tr.FloatCore.round" => wr_tf(FloatCore::round(t1(0)?)),
+        "tr.FloatCore.trunc" => wr_tf(FloatCore::trunc(t1(0)?)),
+        "tr.FloatCore.fract" => wr_tf(FloatCore::fract(t1(0)?)),
+        "tr.FloatCore.is_sign_positive" => wr_bool(FloatCore::is_sign_positive(t1(0)?)),
+        "tr.FloatCore.is_sign_negative" => wr_bool(FloatCore::is_sign_negative(t1(0)?)),
+        "tr.Float.min" => wr_tf(Float::min(t1(0)?, t1(2)?)),
+        "tr.Float.max" => wr_tf(Float::max(t1(0)?, t1(2)?)),
+        "tr.Float.to_degrees" => wr_tf(Float::to_degrees(t1(0)?)),
+        "tr.Float.to_radians" => wr_tf(Float::to_radians(t1(0)?)),
+        "tr.Float.abs" => wr_tf(Float::abs(t1(0)?)),
+        "tr.Float.signum" => wr_tf(Float::signum(t1(0)?)),
+        "tr.Float.recip" => wr_tf(Float::recip(t1(0)?)),
+        "tr.Float.copysign" => wr_tf(Float::copysign(t1(0)?, t1(2)?)),
+        _ => return None,
+    })
 }
 
 enum Val { T(TwoFloat), F(f64) }
